@@ -536,8 +536,16 @@ func genUpstreams(r *vh.Rng, fl Flags, n int) []conf_v1.Upstream {
 	return ups
 }
 
+// retHeavy makes genAction choose action.return far more often (routes with matches / splits:
+// every return gets its own named location @return_<n>, numbered across the whole VirtualServer).
+var retHeavy bool
+
 func genAction(r *vh.Rng, ups []conf_v1.Upstream) *conf_v1.Action {
-	switch r.Intn(8) {
+	k := r.Intn(8)
+	if retHeavy && k >= 5 {
+		k = 1
+	}
+	switch k {
 	case 0:
 		return &conf_v1.Action{Redirect: &conf_v1.ActionRedirect{URL: "http://www.nginx.com${request_uri}", Code: 301}}
 	case 1:
@@ -596,29 +604,52 @@ func polNames(ps []conf_v1.PolicyReference) []string {
 	return out
 }
 
+func genConditions(r *vh.Rng) []conf_v1.Condition {
+	pool := []conf_v1.Condition{
+		{Header: "x-version", Value: "v2"}, {Header: "x-canary", Value: "!yes"},
+		{Cookie: "user", Value: vh.Pick(r, []string{"john", "!bob", "a\"b"})},
+		{Argument: "v", Value: "2"}, {Argument: "debug", Value: "*on"},
+		{Variable: "$request_method", Value: "POST"}, {Variable: "$scheme", Value: "!https"},
+	}
+	n := 1 + r.Intn(3)
+	var out []conf_v1.Condition
+	seen := map[int]bool{}
+	for len(out) < n {
+		i := r.Intn(len(pool))
+		if !seen[i] {
+			seen[i] = true
+			out = append(out, pool[i])
+		}
+	}
+	return out
+}
+
 func genRoute(r *vh.Rng, path string, ups []conf_v1.Upstream, ns string) conf_v1.Route {
 	rt := conf_v1.Route{Path: path}
 	switch r.Intn(6) {
 	case 0:
+		retHeavy = r.Bool()
 		rt.Splits = genSplits(r, ups)
-	case 1:
-		m := conf_v1.Match{Conditions: []conf_v1.Condition{{Header: "x-version", Value: "v2"}}}
-		if r.Bool() {
-			m.Conditions = append(m.Conditions, conf_v1.Condition{Cookie: "user", Value: vh.Pick(r, []string{"john", "!bob", "a\"b"})})
+		retHeavy = false
+	case 1, 2:
+		// matches: 1-3 of them, each with an action or with splits; default = action or splits
+		retHeavy = r.Chance(2, 3)
+		nm := 1 + r.Intn(3)
+		for i := 0; i < nm; i++ {
+			m := conf_v1.Match{Conditions: genConditions(r)}
+			if r.Bool() {
+				m.Action = genAction(r, ups)
+			} else {
+				m.Splits = genSplits(r, ups)
+			}
+			rt.Matches = append(rt.Matches, m)
 		}
-		if r.Bool() {
-			m.Conditions = append(m.Conditions, conf_v1.Condition{Variable: "$request_method", Value: "POST"}, conf_v1.Condition{Argument: "v", Value: "2"})
-		}
-		if r.Bool() {
-			m.Action = genAction(r, ups)
+		if r.Chance(1, 3) {
+			rt.Splits = genSplits(r, ups)
 		} else {
-			m.Splits = genSplits(r, ups)
+			rt.Action = genAction(r, ups)
 		}
-		rt.Matches = []conf_v1.Match{m}
-		if r.Bool() {
-			rt.Matches = append(rt.Matches, conf_v1.Match{Conditions: []conf_v1.Condition{{Argument: "x", Value: "1"}}, Action: genAction(r, ups)})
-		}
-		rt.Action = genAction(r, ups)
+		retHeavy = false
 	default:
 		rt.Action = genAction(r, ups)
 	}
@@ -803,9 +834,14 @@ func genWorld(r *vh.Rng, class string) *world {
 			switch kind {
 			case "ing":
 				hosts := []string{host}
-				if r.Chance(1, 4) {
+				nh := []int{1, 1, 1, 1, 1, 1, 2, 2, 2, 3}[r.Intn(10)]
+				for len(hosts) < nh {
 					h2 := vh.Pick(r, hostPool)
-					if h2 != host {
+					dup := false
+					for _, h := range hosts {
+						dup = dup || h == h2
+					}
+					if !dup {
 						hosts = append(hosts, h2)
 					}
 				}
@@ -950,6 +986,14 @@ func genWitness(r *vh.Rng, w *world, class string) {
 		w.res = append(w.res, Res{Kind: "master", NS: "a", Name: "web", Hosts: []string{"x.example.com"}},
 			Res{Kind: "minion", NS: "a-b", Name: "c", Hosts: []string{"x.example.com"}, Paths: []string{"/a"}, Note: "jwt-login-url"},
 			Res{Kind: "minion", NS: "a", Name: "b-c", Hosts: []string{"x.example.com"}, Paths: []string{"/b"}, Note: "jwt-login-url"})
+	case "w-minion-login-per-path": // F32: one minion, two paths, jwt login url
+		w.flags.Plus = true
+		master := simpleIngress("a", "web", "x.example.com", nil, "svc", map[string]string{"nginx.org/mergeable-ingress-type": "master"})
+		master.Spec.Rules[0].HTTP = nil
+		ann := map[string]string{"nginx.org/mergeable-ingress-type": "minion", "nginx.com/jwt-key": "jwk", "nginx.com/jwt-realm": "r", "nginx.com/jwt-login-url": "https://login.example.com"}
+		w.objs = append(w.objs, master, simpleIngress("b", "m", "x.example.com", []string{"/a", "/b"}, "svc", ann))
+		w.res = append(w.res, Res{Kind: "master", NS: "a", Name: "web", Hosts: []string{"x.example.com"}},
+			Res{Kind: "minion", NS: "b", Name: "m", Hosts: []string{"x.example.com"}, Paths: []string{"/a", "/b"}, Ann: ann})
 	case "w-rewrite-backslash": // F27
 		ann := map[string]string{"nginx.org/rewrites": "serviceName=svc rewrite=/x\\"}
 		w.objs = append(w.objs, simpleIngress("a", "web", "x.example.com", []string{"/"}, "svc", ann))
@@ -1133,7 +1177,7 @@ func firstLine(s string) string {
 }
 
 var witnessClasses = []string{"w-ingress-upstream-name", "w-ingress-path-brace", "w-ts-maxconns", "w-vsr-twice", "w-variable-namer",
-	"w-rewrite-backslash", "w-sticky-brace", "w-ts-hash-key", "w-limit-req-key", "w-minion-login-location"}
+	"w-rewrite-backslash", "w-sticky-brace", "w-ts-hash-key", "w-limit-req-key", "w-minion-login-location", "w-minion-login-per-path"}
 
 // ---------------------------------------------------------------- identifier schemes (model correspondence)
 
